@@ -37,6 +37,9 @@ const (
 	VEof
 	VCancel
 	VTClose
+	// VFailClose: the gated Write of call C fails and, while that call is inside closeWithErr (at the point
+	// "reuse.conn.closing"), the transport is closed (Close held at "reuse.tclose.locked" until then).
+	VFailClose
 )
 
 type Action struct {
@@ -67,6 +70,8 @@ func (a Action) Coq() string {
 		return hx.App("VCancel", c)
 	case VTClose:
 		return "VTClose"
+	case VFailClose:
+		return hx.App("VFailClose", c)
 	}
 	return "?"
 }
@@ -281,12 +286,16 @@ type View struct {
 	Closed   map[int]bool // connection closed (either side saw it)
 	NConns   int
 	TClosed  bool
+	Wedged   bool // Close did not return: the transport's mutex is lost, nothing more can be done
 	Steps    int
 	Outst    map[int]int // connection -> call whose query is outstanding
 	ReaderOK map[int]bool
 }
 
 func (v *View) Applicable(a Action) bool {
+	if v.Wedged {
+		return false
+	}
 	switch a.K {
 	case VStart:
 		return v.St[a.C] == SNone
@@ -307,11 +316,17 @@ func (v *View) Applicable(a Action) bool {
 		return v.St[a.C] == SDialWait || ((v.St[a.C] == SInWrite || v.St[a.C] == SHeld || v.St[a.C] == SWaiting) && v.IsNew[a.C])
 	case VTClose:
 		return !v.TClosed
+	case VFailClose:
+		return v.St[a.C] == SInWrite && !v.TClosed
 	}
 	return false
 }
 
 var mu sync.Mutex
+
+// CloseHung: the transport's Close did not return during the last Run's clean-up (set under mu by Run,
+// read by the single-threaded driver right after Run).
+var CloseHung bool
 
 const wait = 3 * time.Second
 
@@ -356,14 +371,38 @@ func Run(next func(v *View) *Action) (Script, []Obs, []int) {
 	mu.Lock()
 	defer mu.Unlock()
 	var s Script
+	CloseHung = false
 	w := &world{gates: map[int]chan error{}, dials: map[int]chan bool{}, events: make(chan Ev, 256)}
 	t := transport.NewReuseConnTransport(transport.ReuseConnOpts{DialContext: w.dial})
 	calls := map[int]*call{}
 	var gmu sync.Mutex
 	gids := map[int64]int{}
 	hookHit := make(chan int, 64)
+	raceCall := -1 // guarded by gmu
+	var raceRel, tcloseRel chan struct{}
+	closingHit := make(chan struct{}, 4)
+	tcloseHit := make(chan struct{}, 4)
 	verifhook.Set(func(name string) {
 		switch name {
+		case "reuse.conn.closing":
+			g := gid()
+			gmu.Lock()
+			c, ok := gids[g]
+			hold := ok && c == raceCall
+			rel := raceRel
+			gmu.Unlock()
+			if hold {
+				closingHit <- struct{}{}
+				<-rel
+			}
+		case "reuse.tclose.locked":
+			gmu.Lock()
+			rel := tcloseRel
+			gmu.Unlock()
+			if rel != nil {
+				tcloseHit <- struct{}{}
+				<-rel
+			}
 		case "reuse.attempt":
 			g := gid()
 			gmu.Lock()
@@ -397,6 +436,7 @@ func Run(next func(v *View) *Action) (Script, []Obs, []int) {
 	idleSeen := map[int]int{}
 	outst := map[int]int{}
 	tclosed := false
+	wedged := false
 
 	apply := func(e Ev) {
 		cr := calls[e.C]
@@ -454,7 +494,7 @@ func Run(next func(v *View) *Action) (Script, []Obs, []int) {
 	}
 	view := func() *View {
 		v := &View{IsNew: map[int]bool{}, St: map[int]cst{}, Conn: map[int]int{}, Pending: map[int]bool{}, Closed: map[int]bool{}, NConns: 0,
-			TClosed: tclosed, Steps: len(s.Actions), Outst: map[int]int{}, ReaderOK: map[int]bool{}}
+			TClosed: tclosed, Wedged: wedged, Steps: len(s.Actions), Outst: map[int]int{}, ReaderOK: map[int]bool{}}
 		w.mu.Lock()
 		v.NConns = len(w.conns)
 		for c := range w.dials {
@@ -649,6 +689,71 @@ func Run(next func(v *View) *Action) (Script, []Obs, []int) {
 				}
 			}
 			outst = map[int]int{}
+		case VFailClose:
+			cr := calls[a.C]
+			w.mu.Lock()
+			gate := w.gates[a.C]
+			w.mu.Unlock()
+			gmu.Lock()
+			raceCall = a.C
+			raceRel = make(chan struct{})
+			tcloseRel = make(chan struct{})
+			rrel, trel := raceRel, tcloseRel
+			gmu.Unlock()
+			gate <- io.ErrClosedPipe
+			select {
+			case <-closingHit:
+			case <-time.After(wait):
+			}
+			closeDone := make(chan struct{})
+			go func() { t.Close(); close(closeDone) }()
+			select {
+			case <-tcloseHit:
+			case <-time.After(wait):
+			}
+			close(rrel) // the failing call goes on (towards the transport's mutex, which Close holds)
+			time.Sleep(300 * time.Microsecond)
+			gmu.Lock()
+			raceCall, raceRel, tcloseRel = -1, nil, nil
+			gmu.Unlock()
+			close(trel)
+			select {
+			case <-closeDone:
+			case <-time.After(wait):
+				wedged = true
+			}
+			tclosed = true
+			closedConn[cr.conn] = true
+			for n := range readerOK {
+				readerOK[n] = false
+				closedConn[n] = true
+			}
+			expect[a.C] = true
+			for c, cr := range calls {
+				if cr.st == SWaiting || cr.st == SDialWait {
+					expect[c] = true
+				}
+			}
+			outst = map[int]int{}
+		}
+		if wedged {
+			// the counters are behind the lost mutex
+			cs := expect
+			deadline := time.After(wait)
+			for len(cs) > 0 {
+				select {
+				case e := <-w.events:
+					apply(e)
+					o.Events = append(o.Events, e)
+					delete(cs, e.C)
+				case <-deadline:
+					cs = map[int]bool{}
+				}
+			}
+			sort.SliceStable(o.Events, func(i, j int) bool { return o.Events[i].C < o.Events[j].C })
+			o.Conns, o.Idle = 99999, 99999
+			obs = append(obs, o)
+			continue
 		}
 		collect(&o, expect)
 		sort.SliceStable(o.Events, func(i, j int) bool { return o.Events[i].C < o.Events[j].C })
@@ -687,7 +792,17 @@ func Run(next func(v *View) *Action) (Script, []Obs, []int) {
 		}
 	}
 	w.mu.Unlock()
-	t.Close()
+	if !wedged {
+		// failing writes race with this Close exactly as in VFailClose, unscripted: a Close that does not
+		// return is reported by the caller (CloseHung)
+		cd := make(chan struct{})
+		go func() { t.Close(); close(cd) }()
+		select {
+		case <-cd:
+		case <-time.After(wait):
+			CloseHung = true
+		}
+	}
 	deadline := time.After(wait)
 	left := 0
 	for _, cr := range calls {
@@ -742,7 +857,10 @@ func Catalogue() map[string][]Action {
 	eof := func(n int) Action { return Action{K: VEof, N: n} }
 	can := func(c int) Action { return Action{K: VCancel, C: c} }
 	tc := Action{K: VTClose}
+	fc := func(c int) Action { return Action{K: VFailClose, C: c} }
 	return map[string][]Action{
+		"c07:write-error-races-tclose":            {st(0), dl(0, true), fc(0), st(1)},
+		"c07:reused-write-error-races-tclose":     {st(0), dl(0, true), wok(0), fd(0, 100), st(1), st(2), dl(2, true), wok(2), fc(1), st(3)},
 		"c02:reply-while-waiting":                 {st(0), dl(0, true), wok(0), fd(0, 100)},
 		"c02:reply-during-write":                  {st(0), dl(0, true), fd(0, 100), wok(0)},
 		"c02:reply-before-wait":                   {st(0), dl(0, true), whold(0), fd(0, 100), rel(0)},
@@ -774,7 +892,7 @@ func RandomNext(r *hx.RNG, maxSteps int) func(v *View) *Action {
 		}
 		for try := 0; try < 80; try++ {
 			var a Action
-			w := []int{14, 14, 20, 8, 22, 5, 5, 1}
+			w := []int{14, 14, 20, 8, 22, 5, 5, 1, 2}
 			tot := 0
 			for _, x := range w {
 				tot += x
@@ -827,6 +945,11 @@ func Drive(w *hx.Writer, o *hx.Opts, wrap func(string) string) {
 		acts := make([]string, len(s.Actions))
 		for i, a := range s.Actions {
 			acts[i] = a.String()
+		}
+		if CloseHung {
+			w.Violation(id, "ReuseConnTransport.Close did not return within 3 s (closing the transport while a write on one of its connections fails)",
+				map[string]any{"actions": acts, "blocked": bl})
+			return
 		}
 		w.Emit("reuse-script", hx.Case{ID: id, Coq: wrap(CaseCoq(s, obs, bl)), Desc: map[string]any{"actions": acts, "blocked": bl}})
 		w.Tally("reuse-actions", len(s.Actions))
